@@ -34,7 +34,9 @@ Definition rules_step (adv : Z) (r : rstate) (o : op) (obs : list evt) : rstate 
   let conn_err := goaway_is obs 1 in
   match o with
   | OHeaders id es kind _ =>
-    if negb (id mod 2 =? 1) then (settle obs r, conn_err)                       (* 5.1.1: client streams are odd *)
+    if id =? 0 then (settle obs r, conn_err)
+    else if kind =? 7 then (settle obs r, rst_is obs id 1 || any_goaway obs)    (* 8.1.2: malformed header block: stream error *)
+    else if negb (id mod 2 =? 1) then (settle obs r, conn_err)                  (* 5.1.1: client streams are odd *)
     else match rfind id (r_sts r) with
          | Some p =>
            if p =? 1 then                                                       (* trailers *)
@@ -51,7 +53,7 @@ Definition rules_step (adv : Z) (r : rstate) (o : op) (obs : list evt) : rstate 
              let r1 := mkR ((id, if es then 2 else 1) :: r_sts r) id false in
              if adv <=? nopen (r_sts r) then                                    (* 5.1.2: over the advertised limit: refused somehow *)
                (settle obs r1, has_rst obs id || ended obs)
-             else if (kind =? 1) || ((kind =? 2) && negb es) then               (* 8.1.2: malformed request *)
+             else if (kind =? 1) || ((kind =? 2) && negb es) || ((4 <=? kind) && (kind <=? 6)) then  (* 8.1.2.3 / 8.3: malformed request *)
                (settle obs r1, rst_is obs id 1 || any_goaway obs)
              else
                let ok := negb (has_rst obs id) && negb (ended obs) in
@@ -79,6 +81,11 @@ Definition rules_step (adv : Z) (r : rstate) (o : op) (obs : list evt) : rstate 
     match rfind id (r_sts r), hres obs id with
     | Some p, Some x => (settle obs r, negb (x =? 0) || (p =? 3) || resp_end obs id)   (* a running stream gets its complete response *)
     | _, _ => (settle obs r, true)
+    end
+  | ORace id _ _ _ =>                                                           (* handler return racing with a client frame: same duty *)
+    match rfind id (r_sts r), hres obs id with
+    | Some p, Some x => (settle obs r, negb (ended obs) && (negb (x =? 0) || (p =? 3) || resp_end obs id))
+    | _, _ => (settle obs r, negb (ended obs))
     end
   | _ => (settle obs r, negb (ended obs))                                       (* WINDOW_UPDATE, SETTINGS, reads: connection continues *)
   end.
